@@ -52,15 +52,22 @@ func NewUnpackInfo(dst string, header *tar.Header) (UnpackInfo, error) {
 	// and likely indicates a hand-crafted tar file, which we are not in
 	// the business of supporting here.
 	//
-	// The strategy is to Lstat each component of the cleaned path below dst
-	// up to the immediate parent directory of the entry, checking the mode on
-	// each to ensure we wouldn't be passing through any symlinks. (The raw
-	// name must not be used here: in "missing/../link/file" the walk would
-	// stop at "missing" although the file is created through "link".)
+	// The strategy is to Lstat each component of the cleaned path below dst,
+	// checking the mode on each to ensure we wouldn't be passing through any
+	// symlinks. For anything but a symlink entry this includes the entry's
+	// own path, which would otherwise be created or modified through a link
+	// of the same name; os.Symlink never follows an existing link.
 	currentPath := dst // Start at the root of the unpacked tarball.
 	components := strings.Split(rel, string(filepath.Separator))
+	checked := len(components)
+	if header.Typeflag == tar.TypeSymlink {
+		checked--
+	}
+	if rel == "." {
+		checked = 0
+	}
 
-	for i := 0; i < len(components)-1; i++ {
+	for i := 0; i < checked; i++ {
 		currentPath = filepath.Join(currentPath, components[i])
 		fi, err := os.Lstat(currentPath)
 		if os.IsNotExist(err) {
